@@ -163,6 +163,9 @@ def run(chk):
         if name in ("ConFIG", "AlignedMTL"):
             p = {"pref": A.gen_pref(rng, len(J), positive=True)}
         cases.append({"name": name, "params": p, "J": J, "cat": f"fullrank*2^{e}"})
+        sib = R.sibling(cases[-1])
+        if sib is not None and i % 2 == 0:
+            cases.append(sib)
     corr = [c for c in cases if A.exactly_representable(c["J"], "f32") and
             R.well_conditioned(c["J"], c["name"], c["params"])]
     kept, dis = R.run_corr(chk, corr, "c17")
@@ -193,6 +196,11 @@ def replay(chk, obj):
     c = {"name": obj["aggregator"], "params": A.unjson(obj["params"]), "J": A.unjson(obj["J"]),
          "cat": obj.get("cat", "")}
     dt = obj.get("dtype", "f64")
+    pre = R.presibling(c)
+    if pre is not None:                          # replay the two-call sequence on the reused instances
+        fn = {"IMTLG": oracle_imtlg, "ConFIG": oracle_config, "AlignedMTL": oracle_aligned}[c["name"]]
+        for d in ("f64", "f32"):
+            fn(chk, pre, d, found)
     if c["cat"] == "zero":
         zero_checks(chk, found)
     elif c["name"] == "AlignedMTL":
